@@ -1,6 +1,7 @@
 /-
   C07 — scaling stays within bounds and never removes a shard still in use.
 -/
+import Kvass.Pins.Coord
 import Kvass.Proofs.CoordScale
 
 namespace Kvass.Props.C07
